@@ -441,6 +441,12 @@ func RunSession(spec *SessSpec) *Trace {
 						return &cbsim.Action{HasStatus: true, Status: cbsim.StTmpFail}
 					case "busy":
 						return &cbsim.Action{HasStatus: true, Status: cbsim.StBusy}
+					case "silent-once": // this one request is never answered (the client's 5 s deadline expires), later ones are
+						sess.pmu.Lock()
+						sess.obsFail[[2]int{int(r.VB), r.Replica}] = "ok"
+						sess.pmu.Unlock()
+						env.Log.Add(evlog.Rec{K: "sim.observe.silent", VB: int(r.VB), B: uint64(r.Replica)})
+						return &cbsim.Action{NoReply: true}
 					}
 				}
 			}
